@@ -276,6 +276,10 @@ def layer_cases(draw):
     else:
         c["i"], c["o"] = draw(st.sampled_from([4, 8, 16])), draw(st.sampled_from([32, 64]))
         c["k"] = [draw(st.sampled_from([1, 3, 5])), draw(st.sampled_from([3, 2, 5]))]
+    if kind != "linear":
+        # geometry options have no say in the initial distribution (fan_in = in_channels x kernel elements)
+        c["stride"], c["dilation"] = draw(st.sampled_from([1, 1, 2])), draw(st.sampled_from([1, 1, 2, 3]))
+        c["padding"] = draw(st.sampled_from([0, 0, 1, "valid"]))
     return c
 
 
@@ -284,9 +288,11 @@ def check_layer(c, rec):
     if c["kind"] == "linear":
         m = nn.Linear(c["i"], c["o"], bias=c["bias"]); fan_in = c["i"]; wshape = (c["o"], c["i"])
     elif c["kind"] == "conv1d":
-        m = nn.Conv1d(c["i"], c["o"], c["k"], bias=c["bias"]); fan_in = c["i"] * c["k"]; wshape = (c["o"], c["i"], c["k"])
+        m = nn.Conv1d(c["i"], c["o"], c["k"], c.get("stride", 1), c.get("padding", 0), c.get("dilation", 1), bias=c["bias"])
+        fan_in = c["i"] * c["k"]; wshape = (c["o"], c["i"], c["k"])
     else:
-        m = nn.Conv2d(c["i"], c["o"], tuple(c["k"]), bias=c["bias"]); fan_in = c["i"] * c["k"][0] * c["k"][1]
+        m = nn.Conv2d(c["i"], c["o"], tuple(c["k"]), c.get("stride", 1), c.get("padding", 0), c.get("dilation", 1), bias=c["bias"])
+        fan_in = c["i"] * c["k"][0] * c["k"][1]
         wshape = (c["o"], c["i"], c["k"][0], c["k"][1])
     rec.nontrivial(c["kind"] != "linear")
     rec.tag(c["kind"])
@@ -301,6 +307,8 @@ def check_layer(c, rec):
             raise Violation("layer_param", f"{c['kind']} bias shape {bb.shape}")
         if np.abs(bb).max() > b * (1 + 4 * float(np.finfo(np.float32).eps)):
             raise Violation("bound", f"{c['kind']} bias outside +-1/sqrt(fan_in)={b}: {np.abs(bb).max()}", region=c["kind"] + ".bias")
+        if bb.size >= 32 and np.abs(bb).max() < b * (1 - 20.0 / bb.size) * 0.5:
+            raise Violation("bound", f"{c['kind']} bias does not fill +-1/sqrt(fan_in)={b}: max |b| = {np.abs(bb).max()}; {c}", region=c["kind"] + ".bias")
         if abs(bb.mean()) > 6 * (b / math.sqrt(3)) / math.sqrt(bb.size):
             raise Violation("mean", f"{c['kind']} bias mean {bb.mean()} too far from 0", region=c["kind"] + ".bias")
     elif m.bias is not None:
